@@ -106,7 +106,12 @@ class BaseEnv:
 
     def __init__(self, tt):
         self.tt = tt
-        self.tn = st
+        self.shape_level = getattr(tt, '__tv_shim__', 'value') == 'shape'
+        if self.shape_level:
+            from . import shapetorch
+            self.tn = shapetorch
+        else:
+            self.tn = st
         self.np = symnumpy.facade
         self.results = []
         self.inputs = {}
@@ -192,6 +197,8 @@ class SymEnv(BaseEnv):
         return v
 
     def tensor(self, name, shape, dtype='float64'):
+        if self.shape_level:
+            return self.stensor(name, shape, dtype)
         a = self._fresh_arr(name, shape, dtype)
         self.inputs[name] = {'kind': 'tensor', 'dtype': dtype, 'shape': list(shape), 'syms': a.copy()}
         return st.Tensor(a, DT[dtype])
@@ -215,6 +222,12 @@ class SymEnv(BaseEnv):
 
     def scalar(self, name, kind='float', dtype='float64'):
         """kind: float | npfloat | complex | tensor0 | tensor1"""
+        if self.shape_level:
+            if kind == 'tensor0':
+                return self.stensor(name, [], dtype)
+            if kind == 'tensor1':
+                return self.stensor(name, [1], dtype)
+            return 2.5
         if kind == 'complex':
             v = C(real(name + '.re'), real(name + '.im'))
             self.inputs[name] = {'kind': 'scalar', 'skind': kind, 'syms': v}
@@ -396,6 +409,8 @@ class ExactEnv(BaseEnv):
         return a
 
     def tensor(self, name, shape, dtype='float64'):
+        if self.shape_level:
+            return self.stensor(name, shape, dtype)
         return st.Tensor(self._arr(name, shape, dtype), DT[dtype])
 
     def nparray(self, name, shape, dtype='float64'):
@@ -413,6 +428,12 @@ class ExactEnv(BaseEnv):
         return seeded_int(self.seed, name, 0, lo, hi)
 
     def scalar(self, name, kind='float', dtype='float64'):
+        if self.shape_level:
+            if kind == 'tensor0':
+                return self.stensor(name, [], dtype)
+            if kind == 'tensor1':
+                return self.stensor(name, [1], dtype)
+            return 2.5
         if kind == 'complex':
             return C(self._k(seeded_fraction(self.seed, name + '.re', 0)), self._k(seeded_fraction(self.seed, name + '.im', 0)))
         v = self._k(seeded_fraction(self.seed, name, 0), 'npfloat' if kind == 'npfloat' else 'float')
